@@ -119,6 +119,19 @@ Theorem tag_merge_order : forall a d kws, forallb extra_kw kws = true ->
 Proof. exact tag_merge_order_lemma. Qed.
 Print Assumptions tag_merge_order.
 
+(* The aggregate form `{% html_attrs attrs:k=v ... defaults:k=v ... k=v ... %}`: any list of keywords each of which is
+   attrs:<name>, defaults:<name> or an extra keyword, in any order, repeated in any pattern (spread or written):
+   the tag behaves as HtmlAttrsNode.render ([merge_order] says what that is) on the dictionary A of the attrs: keys,
+   the dictionary D of the defaults: keys and the extra keywords, every name holding [kw_val] of what was written. *)
+Theorem tag_aggregate_form : forall kws, forallb tag_kw kws = true ->
+  exists A D kw, html_attrs_tag (map kwp kws) = html_attrs A D kw /\
+    keys_nodup A /\ keys_nodup D /\ keys_nodup kw /\
+    (forall i, dget i A = kw_val (occ (k_attrs ++ 58%N :: i) (map kw_entry kws))) /\
+    (forall i, dget i D = kw_val (occ (k_defaults ++ 58%N :: i) (map kw_entry kws))) /\
+    (forall k, dget k kw = if extra_name k then kw_val (occ k (map kw_entry kws)) else None).
+Proof. exact tag_aggregate_lemma. Qed.
+Print Assumptions tag_aggregate_form.
+
 (* ---------- slot content ---------- *)
 
 (* EXACTLY ONCE, through every chain of handing the normalised slot on to further Component.render calls
@@ -198,6 +211,15 @@ Example tag_example :
   html_attrs_tag ((None, TD [(c, VStr [65])]) :: (None, TD [(c, VStr [68]); (([104], false), VTrue)]) :: map kwp kws)%N
   = Out [99;61;34;65;32;120;32;121;32;122;34; 32;104; 32;100;97;116;97;45;105;61;34;49;32;50;34]%N.
         (* c="A x y z" h data-i="1 2" *)
+Proof. vm_compute. split; reflexivity. Qed.
+
+(* {% html_attrs defaults:c=D c=x attrs:c=A attrs:c=B c=y %} : c="A B x y" *)
+Example tag_aggregate_example :
+  let k s := ((s, false), true) in
+  let kws := [(k (k_defaults ++ [58;99]), VStr [68]); (k [99], VStr [120]); (k (k_attrs ++ [58;99]), VStr [65]);
+              (k (k_attrs ++ [58;99]), VStr [66]); (k [99], VStr [121])]%N in
+  forallb tag_kw kws = true /\
+  html_attrs_tag (map kwp kws) = Out [99;61;34;65;32;66;32;120;32;121;34]%N.
 Proof. vm_compute. split; reflexivity. Qed.
 
 (* a TypeError case of merge_order: appending to True *)
